@@ -2420,6 +2420,46 @@ func worklistOrder(c *eng.Ctx, R string) {
 						}
 					}
 				case *ssa.Call:
+					if g := eng.StaticCallee(x); g != nil && eng.InModule(g) && g.Blocks != nil && types.Identical(x.Type(), w.Type()) {
+						// the children are pushed by a helper that is handed the list and returns it: the helper pushes
+						// them last child first when it counts down or swaps the pushed part around
+						handed := false
+						for _, a := range x.Call.Args {
+							if derived(a) {
+								handed = true
+							}
+							if c2, ok := a.(*ssa.Call); ok {
+								if b2, ok := c2.Call.Value.(*ssa.Builtin); ok && b2.Name() == "append" && len(c2.Call.Args) > 0 && derived(c2.Call.Args[0]) {
+									handed = true
+								}
+							}
+						}
+						if handed && hdr.Dominates(x.Block()) {
+							pushes, down := false, false
+							eng.Instrs(g, false, func(in3 ssa.Instruction) {
+								if c3, ok := in3.(*ssa.Call); ok {
+									if b3, ok := c3.Call.Value.(*ssa.Builtin); ok && b3.Name() == "append" {
+										pushes = true
+									}
+								}
+								if ph, ok := in3.(*ssa.Phi); ok && isLoopCarried(ph) {
+									for _, e := range ph.Edges {
+										if b, ok := e.(*ssa.BinOp); ok && b.Op == token.SUB && b.X == ssa.Value(ph) {
+											if k, isC := eng.ConstInt(b.Y); isC && k == 1 {
+												down = true
+											}
+										}
+									}
+								}
+							})
+							if pushes && down {
+								backReversed = true
+							} else if pushes {
+								backNatural = true
+							}
+						}
+						return
+					}
 					bi, ok := x.Call.Value.(*ssa.Builtin)
 					if !ok || bi.Name() != "append" || len(x.Call.Args) != 2 {
 						return
@@ -2494,6 +2534,20 @@ func worklistOrder(c *eng.Ctx, R string) {
 								if !eng.InLoop(x.Block()) || x.Block() == hdr {
 									natural = true
 								}
+								// a nil pushed as a marker is not a child
+								marker := true
+								for _, r := range *al.Referrers() {
+									if ia, ok := r.(*ssa.IndexAddr); ok {
+										for _, rr := range *ia.Referrers() {
+											if st, ok := rr.(*ssa.Store); ok && !eng.IsNilConst(st.Val) {
+												marker = false
+											}
+										}
+									}
+								}
+								if marker {
+									return
+								}
 							}
 						}
 						if natural {
@@ -2512,6 +2566,11 @@ func worklistOrder(c *eng.Ctx, R string) {
 			if (!front && !back) || (!backNatural && !backReversed && !prepend) {
 				return
 			}
+			if back && !front && popAndPushExclusive(fn, w, hdr, derived) {
+				// a stack of cursors: a trip either removes the exhausted top or pushes one frame on top of it, the
+				// order of the visit is the order of the cursor inside each frame
+				return
+			}
 			n++
 			bad := ""
 			switch {
@@ -2523,6 +2582,40 @@ func worklistOrder(c *eng.Ctx, R string) {
 			c.Check(bad == "", R, fmt.Sprintf("%s#worklist%d", eng.FuncName(fn), n), w.Pos(), "the work list preserves depth-first left-to-right order", bad+", not the document order a recursive walk gives")
 		})
 	}
+}
+
+// popAndPushExclusive: in no trip of the work-list loop is the list both shortened at the back and appended to.
+func popAndPushExclusive(fn *ssa.Function, w *ssa.Phi, hdr *ssa.BasicBlock, derived func(ssa.Value) bool) bool {
+	var pops, pushes []*ssa.BasicBlock
+	eng.Instrs(fn, false, func(in ssa.Instruction) {
+		switch x := in.(type) {
+		case *ssa.Slice:
+			if x.X == ssa.Value(w) && x.Low == nil && x.High != nil {
+				pops = append(pops, x.Block())
+			}
+		case *ssa.Call:
+			if bi, ok := x.Call.Value.(*ssa.Builtin); ok && bi.Name() == "append" && len(x.Call.Args) == 2 && derived(x.Call.Args[0]) && hdr.Dominates(x.Block()) {
+				pushes = append(pushes, x.Block())
+			}
+		}
+	})
+	if len(pops) == 0 || len(pushes) == 0 {
+		return false
+	}
+	for _, p := range pops {
+		for _, a := range pushes {
+			if p == a {
+				return false
+			}
+			if eng.ReachableBlocks([]*ssa.BasicBlock{p}, func(b *ssa.BasicBlock) bool { return b == hdr })[a] {
+				return false
+			}
+			if eng.ReachableBlocks([]*ssa.BasicBlock{a}, func(b *ssa.BasicBlock) bool { return b == hdr })[p] {
+				return false
+			}
+		}
+	}
+	return true
 }
 
 // R10.11 [C10]
